@@ -59,3 +59,86 @@ def make_interp(repo, algebra_attrs: Optional[Dict[str, Any]] = None, algebra_me
         return NotImplemented
     it.class_call_hook = class_call
     return it
+
+
+# --------------------------------------------------------------------------- representative algebra / values
+def default_canon2bin(d: int, start_index: int = 1):
+    """canon2bin of kingdon's default basis for a d-dimensional algebra (canonical order: by grade, then name)."""
+    names = {}
+    for b in range(2 ** d):
+        names[b] = "e" + "".join(format(i + start_index, "x") for i in range(d) if b & (1 << i))
+    return dict(sorted(((n, b) for b, n in names.items()), key=lambda x: (len(x[0]), x[0])))
+
+
+def swap_parity(spelling: str, canon: str) -> int:
+    """Parity stand-in for Algebra._blade2canon: number of inversions of spelling w.r.t. canon order."""
+    order = {c: i for i, c in enumerate(canon[1:])}
+    seq = [order[c] for c in spelling[1:]]
+    return sum(1 for i in range(len(seq)) for j in range(i + 1, len(seq)) if seq[i] > seq[j])
+
+
+def rep_algebra(d: int = 3, graded: bool = False, extra_attrs=None, extra_methods=None, r: int = 0) -> Obj:
+    c2b = default_canon2bin(d)
+    b2c = {b: n for n, b in sorted(c2b.items(), key=lambda x: x[1])}
+
+    def blade2canon(name):
+        if name in c2b:
+            return (name, 0)
+        gens = name[1:]
+        bits = 0
+        for g in gens:
+            bits |= c2b.get("e" + g, 2 ** d)
+        canon = b2c.get(bits)
+        if canon and len(set(gens)) == len(gens):
+            return (canon, swap_parity(name, canon))
+        if canon:
+            return (canon, 0)
+        return (f"e{2 ** d}", 0)
+
+    def indices_for_grades(grades):
+        if not isinstance(grades, tuple):
+            raise Raised("KeyError")
+        out = []
+        if list(grades) != sorted(set(grades)) or any(not isinstance(g, int) or g < 0 or g > d for g in grades):
+            raise Raised("KeyError")
+        for g in grades:
+            out.extend(b for n, b in c2b.items() if len(n) - 1 == g)
+        return tuple(out)
+
+    def indices_for_grade(g):
+        if not isinstance(g, int) or g < 0 or g > d:
+            raise Raised("KeyError")
+        return tuple(b for n, b in c2b.items() if len(n) - 1 == g)
+
+    attrs = {"canon2bin": c2b, "bin2canon": b2c, "d": d, "graded": graded, "r": r, "p": d - r, "q": 0,
+             "indices_for_grades": Obj("dict", getitem=indices_for_grades),
+             "indices_for_grade": Obj("dict", getitem=indices_for_grade),
+             "codegen_symbolcls": None, "wrapper": None}
+    attrs.update(extra_attrs or {})
+    methods = {"_blade2canon": blade2canon, "__len__": lambda: 2 ** d}
+    methods.update(extra_methods or {})
+    return Obj("algebra", attrs, methods)
+
+
+from .absint import Raised  # noqa: E402
+
+
+class Val:
+    """Symbolic coefficient: +-name (negation tracked), opaque otherwise."""
+
+    def __new__(cls, name, sign=1):
+        o = Obj("value", {"name": name, "sign": sign, "fmt": ("-" if sign < 0 else "") + name})
+        o.methods["unop"] = lambda op: Val(name, -sign) if op == "USub" else (o if op == "UAdd" else Unk("unop"))
+        o.methods["binop"] = lambda op, other, refl: Unk(f"arith({name})")
+        o.methods["compare"] = lambda op, other: Unk("compare value")
+        return o
+
+
+def val_repr(v):
+    if isinstance(v, Obj) and v.kind == "value":
+        return v.attrs["fmt"]
+    return repr(v)
+
+
+def mv_obj(algebra, keys, values, kind="MultiVector") -> Obj:
+    return Obj(kind, {"algebra": algebra, "_keys": keys, "_values": values})
